@@ -243,6 +243,7 @@ def run(case, hooks=None):
                 rec["status"] = "running"
                 rec["t_start"] = t
                 tasks[arg] = sim.start(_caller(sim, cspec, cmds, rec), tag=arg)
+                tasks[arg].add_done_callback(lambda _t, rec=rec: rec.__setitem__("t_done", sim.loop.time() - t0))
             elif what == "cancel":
                 if arg in tasks and not tasks[arg].done():
                     tasks[arg].cancel()
@@ -253,6 +254,9 @@ def run(case, hooks=None):
                 sim.lose(notify=arg.get("notify", True), eof=arg.get("eof", False))
             elif what == "write_fails":
                 sim.gw.write_fails = True
+            elif what == "hup":
+                if sim.gw.fd is not None:
+                    sim.loop.fire_reader(sim.gw.fd)
             elif what == "restore":
                 sim.restore()
             elif what == "mute":
@@ -267,6 +271,10 @@ def run(case, hooks=None):
         if "before_drain" in hooks:
             hooks["before_drain"](sim)
         obs["drain_rounds"] = sim.drain(chunk_first=tie, max_virtual=case.get("drain_virtual", 120.0))
+        if case.get("horizon"):
+            # keep the world running (reconnect timers, late reports) up to a fixed virtual time
+            sim.run_until(t0 + case["horizon"], chunk_first=tie, max_rounds=20000)
+            sim.drain(chunk_first=tie, max_virtual=1.0)
         obs["t_end"] = sim.loop.time() - t0
         for ci, rec in enumerate(recs):
             t = tasks.get(ci)
